@@ -3,6 +3,7 @@
 package c19
 
 import (
+	"compress/gzip"
 	"context"
 	"errors"
 	"fmt"
@@ -39,6 +40,9 @@ type Case struct {
 	// OwnNumber: numbered changeset state files carry their own number, as
 	// the planet's files before 2008004 do; state.yaml is off by one as ever.
 	OwnNumber bool
+	// QueryMS: milliseconds added to the query time (state timestamps have
+	// whole seconds; a query a fraction of a second after a state lies after it).
+	QueryMS int
 }
 
 var qzones = []*time.Location{time.UTC, time.FixedZone("", 3600), time.FixedZone("", 0), time.FixedZone("", -(5*3600 + 1800))}
@@ -148,6 +152,16 @@ func (s *server) ServeHTTP(w http.ResponseWriter, req *http.Request) {
 		return
 	}
 	code, body := s.respond(req.URL.Path)
+	if strings.Contains(req.Header.Get("Accept-Encoding"), "gzip") {
+		// like the planet server: compress when the client offers it (Go's
+		// transport offers it by itself and decompresses transparently)
+		w.Header().Set("Content-Encoding", "gzip")
+		w.WriteHeader(code)
+		zw := gzip.NewWriter(w)
+		io.WriteString(zw, body)
+		zw.Close()
+		return
+	}
 	w.WriteHeader(code)
 	io.WriteString(w, body)
 }
@@ -174,7 +188,7 @@ var lastNT bool
 
 func check(c Case) error {
 	states, cur, missing := c.world()
-	q := base.Add(time.Duration(c.Query) * time.Second)
+	q := base.Add(time.Duration(c.Query)*time.Second + time.Duration(c.QueryMS)*time.Millisecond)
 	want := cur
 	for s := uint64(1); s <= cur; s++ {
 		if st, ok := states[s]; ok && !st.Before(q) {
@@ -339,6 +353,7 @@ func genCase(t *rapid.T) Case {
 	c.Layout = rapid.IntRange(0, 2).Draw(t, "layout")
 	c.Prefix = rapid.SampledFrom([]string{"", "", "/mirror/osm"}).Draw(t, "prefix")
 	c.QZone = rapid.SampledFrom([]int{0, 0, 1, 2, 3}).Draw(t, "qzone")
+	c.QueryMS = rapid.SampledFrom([]int{0, 0, 1, 500, 999}).Draw(t, "queryMS")
 	if c.Kind != 3 && rapid.IntRange(0, 7).Draw(t, "bigLine?") == 0 {
 		c.BigLine = rapid.SampledFrom([]int{4000, 65000, 65536, 70000, 200000}).Draw(t, "bigLine")
 	}
@@ -351,7 +366,7 @@ func genCase(t *rapid.T) Case {
 func TestStateAt(t *testing.T) {
 	harness.Run(t, harness.Spec[Case]{
 		Name: "state-at", N: 10000,
-		Rule:  "replication directories served by an in-process http.RoundTripper: kind in {minute,hour,day,changesets}; sequence range [first,cur] with a missing prefix of any length (first up to 3 000 000, also around the 999/1000 path boundary); strictly increasing irregular timestamps; missing-file patterns none / isolated / runs / dense / sparse; query before all, between, equal to a state's timestamp, after all; planet layouts (sequenceNumber=/timestamp= with escaped colons, extra lines in three orders; changeset YAML with last_run/sequence and the off-by-one number - a third of the changeset directories with numbered files that carry their own number, as the planet's files before 2008004 -, two time layouts; one interval directory in eight with a leading txnActiveList line of 4 KB..200 KB), the query instant also passed in a non-UTC location (same answer and same number of requests), optional base-URL path prefix; oracle = first available state with timestamp >= t (cur if later than all), every request path exactly /replication/<dir>/state.{txt,yaml} or /AAA/BBB/CCC.state.txt, returned number = file name, request count <= 8*(ceil(log2(cur))+2)+4*missing+16 (far, gap-free directories: 8*L+2*L^2+16 with L=log2(cur)+2, the missing prefix need not be stepped over there); non-trivial = a missing file strictly inside [first,cur]",
+		Rule:  "replication directories served by an in-process http.RoundTripper: kind in {minute,hour,day,changesets}; sequence range [first,cur] with a missing prefix of any length (first up to 3 000 000, also around the 999/1000 path boundary); strictly increasing irregular timestamps; missing-file patterns none / isolated / runs / dense / sparse; query before all, between, equal to a state's timestamp, after all, 40% of them 1, 500 or 999 ms past a whole second; planet layouts (sequenceNumber=/timestamp= with escaped colons, extra lines in three orders; changeset YAML with last_run/sequence and the off-by-one number - a third of the changeset directories with numbered files that carry their own number, as the planet's files before 2008004 -, two time layouts; one interval directory in eight with a leading txnActiveList line of 4 KB..200 KB), the query instant also passed in a non-UTC location (same answer and same number of requests), optional base-URL path prefix; oracle = first available state with timestamp >= t (cur if later than all), every request path exactly /replication/<dir>/state.{txt,yaml} or /AAA/BBB/CCC.state.txt, returned number = file name, request count <= 8*(ceil(log2(cur))+2)+4*missing+16 (far, gap-free directories: 8*L+2*L^2+16 with L=log2(cur)+2, the missing prefix need not be stepped over there); non-trivial = a missing file strictly inside [first,cur]",
 		Gen:   genCase,
 		Check: check,
 		Classify: func(c Case) (bool, []string) {
@@ -369,12 +384,9 @@ func TestStateAt(t *testing.T) {
 }
 
 func TestLoopback(t *testing.T) {
-	if harness.Tier() != "thorough" {
-		return
-	}
 	harness.Run(t, harness.Spec[Case]{
-		Name: "state-at-loopback", N: 300,
-		Rule: "same generator and oracle, served by a real loopback httptest.Server (thorough tier only)",
+		Name: "state-at-loopback", N: 150,
+		Rule: "same generator and oracle, served by a real loopback httptest.Server that compresses its responses when the client offers gzip (as Go's transport does by itself)",
 		Gen: func(t *rapid.T) Case {
 			c := genCase(t)
 			c.Loopback = true
